@@ -34,6 +34,9 @@ pub enum Action {
 pub enum Prior {
     /// two tasks, one commit with undo point pending
     Small,
+    /// like `Small`, but the undo span holds 1200 further changes made in one commit (an import): an
+    /// action that treats long operation lists specially must stay one transaction
+    BigSpan,
     /// after a sync, with further local changes and a working set with a gap
     Synced,
 }
@@ -83,6 +86,13 @@ async fn build_prior(dir: &Path, prior: Prior) {
     let mut ops_ = vec![Operation::UndoPoint];
     let mut td = r.get_task_data(t(2)).await.unwrap().unwrap();
     td.update("description", Some("edited".into()), &mut ops_);
+    if prior == Prior::BigSpan {
+        for i in 0..400u32 {
+            let mut td = TaskData::create(Uuid::from_u128(0x06B1_0000 + i as u128), &mut ops_);
+            td.update("status", Some("pending".into()), &mut ops_);
+            td.update("description", Some(format!("imported {i}")), &mut ops_);
+        }
+    }
     r.commit_operations(ops_).await.unwrap();
 }
 
@@ -208,8 +218,24 @@ fn prepare(prior: Prior, action: Action) -> Case {
 }
 
 /// Part 1: abandon at every storage call (error, or the future dropped = process stop).
-fn abandon_sweep(rep: &Report, c: &Case) {
+fn abandon_sweep(rep: &Report, c: &Case, stride: usize) {
+    // long call lists (the 1200-operation span): every transaction boundary with its neighbours,
+    // the first and last calls, and every 97th call in between
+    let long = c.calls.len() > 400;
+    if long {
+        rep.set("abandon_sweep_long_lists", format!("transaction boundaries +-1, first 3, last 3, every {stride}th call"));
+    }
     for k in 0..c.calls.len() {
+        if long {
+            let near_boundary = (k.saturating_sub(1)..=(k + 1).min(c.calls.len() - 1)).any(|j| c.calls[j] == "txn" || c.calls[j] == "commit");
+            if !(near_boundary || k < 3 || k + 3 >= c.calls.len() || k % stride == 0) {
+                continue;
+            }
+        }
+        if rep.over_budget() {
+            rep.set("exhaustive", false);
+            return;
+        }
         for kind in [StorageFault::Error, StorageFault::Stop] {
             let work = fresh_dir("c06run");
             copy_dir(&c.dir, &work);
@@ -398,7 +424,7 @@ pub fn run(opts: &Opts) -> i32 {
     rep.assume("process-kill semantics (the kernel keeps written pages); power loss and SQLite's own recovery code are trusted");
     let q = opts.tier == Tier::Quick;
     let plan: Vec<(Prior, Action)> = if q {
-        vec![(Prior::Small, Action::Commit), (Prior::Synced, Action::Undo), (Prior::Synced, Action::Rebuild(true)), (Prior::Small, Action::Sync)]
+        vec![(Prior::Small, Action::Commit), (Prior::Synced, Action::Undo), (Prior::Synced, Action::Rebuild(true)), (Prior::Small, Action::Sync), (Prior::BigSpan, Action::Undo)]
     } else {
         let mut v = vec![];
         for p in [Prior::Small, Prior::Synced] {
@@ -406,11 +432,13 @@ pub fn run(opts: &Opts) -> i32 {
                 v.push((p, a));
             }
         }
+        v.push((Prior::BigSpan, Action::Undo));
+        v.push((Prior::BigSpan, Action::Sync));
         v
     };
     for (prior, action) in plan {
         let c = prepare(prior, action);
-        abandon_sweep(&rep, &c);
+        abandon_sweep(&rep, &c, if q { 499 } else { 97 });
         println!("[C06] {prior:?}/{action:?}: {} storage calls x 2 abandon kinds done ({:.1}s)", c.calls.len(), rep.elapsed());
         kill_sweep(&rep, &c, if q { 12 } else { 1000 });
         println!("[C06] {prior:?}/{action:?}: kill sweep done, {} kill runs so far ({:.1}s)", rep.get("kill_runs"), rep.elapsed());
